@@ -168,6 +168,13 @@ def check_graph(lid, g, edges, V, obs):
             lcs = ref.lch(a, b, False) if ref.dag else None
             shared = bool(ref.common(a, b, False))
             allc = ref.common(a, b, False)
+            if 'real' in g:
+                # expanded mode: only stored synsets carry a weight - the most informative *stored* common
+                # hypernym counts; placeholders among the common hypernyms must not break the metric, and
+                # without any stored one there is nothing to measure (wn.Error)
+                allc = {c for c in allc if c in idx}
+                lcs = {c for c in lcs if c in idx} if lcs is not None else None
+                shared = bool(allc)
             for tb in tables:
                 freq = {p: {None: 10.0} for p in 'nvar'}
                 for i in range(n):
@@ -192,7 +199,7 @@ def check_graph(lid, g, edges, V, obs):
                         # documented: the maximum information content over the common subsumers ("more
                         # efficiently computed using the lowest common hypernyms"): the maximum over all common
                         # hypernyms, or over the lowest ones where depth is defined - never a smaller value
-                        acc = {max(ic[c] for c in allc)} | ({max(ic[c] for c in lcs)} if lcs else set())
+                        acc = {max(ic[c] for c in allc)} | ({max(ic[c] for c in lcs)} if lcs and 'real' not in g else set())
                         if not any(close(v, x) for x in acc):
                             bad('res:formula', f'res({a},{b}) table {tb} = {v} expected the maximum IC {sorted(acc)} '
                                 f'(IC by node: { {c: round(ic[c], 4) for c in sorted(allc)} })')
@@ -200,7 +207,7 @@ def check_graph(lid, g, edges, V, obs):
                     if lcs is None:
                         continue
                     acc = set()
-                    for c in set(lcs) | {max(allc, key=lambda c: ic[c])}:
+                    for c in (set(lcs) if 'real' not in g else set()) | {max(allc, key=lambda c: ic[c])}:
                         ic0 = ic[c]
                         if f is sim.res:
                             acc.add(ic0)
@@ -278,11 +285,12 @@ def space(tier, seed):
         gs.append({'n': 4, 'loops': False, 'h': h, 'tables': tables_for(4, tier, seed)})
     # expanded mode: path / lch / wup over a graph borrowed from an expand lexicon, all pairs of the r real
     # synsets (r >= 2; by relabelling symmetry every subset of that size); a lowest common hypernym may be
-    # an *INFERRED* placeholder. No IC tables: information content is keyed by stored synsets.
+    # an *INFERRED* placeholder. For the 2- and 3-node graphs also res / jcn / lin with weight tables: information content is keyed by stored synsets, so the most informative *stored* common hypernym counts.
     for n in (2, 3):
         for h in range(1 << (n * n)):
             for r in range(2, n + 1):
-                gs.append({'n': n, 'loops': True, 'h': h, 'real': (1 << r) - 1, 'tables': []})
+                gs.append({'n': n, 'loops': True, 'h': h, 'real': (1 << r) - 1,
+                           'tables': [tuple([2] * n), tuple((1, 5, 2)[i] for i in range(n)), tuple((5, 1, 10)[i] for i in range(n))]})
     for h in (dag_masks(4) if tier == 'quick' else range(1 << 12)):
         for r in ((2,) if tier == 'quick' else (2, 3)):
             gs.append({'n': 4, 'loops': False, 'h': h, 'real': (1 << r) - 1, 'tables': []})
